@@ -477,4 +477,641 @@ theorem readNote_print (ch : Nat) (acc : Int) (nat : Bool) (len : Option Core.Le
     rw [slur_none (32 :: R) ln (by intro c r h; cases h; decide)]
     cases q <;> cases v <;> cases t <;> rfl
 
+
+/-! ## rests, default length, the value setters, loops -/
+
+theorem next_skipSpace (R : List Nat) (ln : Int) (h : Next R) : (Cur.mk R ln).skipSpace = ⟨R, ln⟩ := by
+  rcases h with rfl | ⟨c, r, rfl, hs⟩
+  · exact skipSpace_nil ln
+  · exact skipSpace_nonblank c r ln hs.nonblank
+
+theorem next_stop_or_nil {R : List Nat} (h : Next R) : R = [] ∨ ∃ c r', R = c :: r' ∧ Stop c := by
+  rcases h with rfl | ⟨c, r, rfl, hs⟩
+  · exact Or.inl rfl
+  · exact Or.inr ⟨c, r, rfl, hs.stop⟩
+
+/-- the sign of a rest: `r` or `r-` -/
+def restSign (dir : Int) : List Nat := if dir = -1 then [45] else []
+
+theorem readRest_print (dir : Int) (hd : dir = 1 ∨ dir = -1) (len : Option Core.LenExpr) (R : List Nat) (ln : Int)
+    (hl : Ex2.lenOK len) (hh : LenHeadOK len) (hR : Next R) :
+    readRest ⟨restSign dir ++ (Ex2.lenText len ++ 32 :: R), ln⟩ = (tok .rest dir [.str (Ex2.lenText len)], ⟨R, ln⟩) := by
+  have hL := lenText_lenchars len hl
+  have hnl := noteLength_then_blank (Ex2.lenText len) hL R ln (next_stop_or_nil hR)
+  -- the text after the sign starts with neither `*` nor `-`
+  have hhead : ∀ c r, Ex2.lenText len ++ 32 :: R = c :: r → c ≠ 42 ∧ c ≠ 45 := by
+    intro c r hr
+    cases hlt : Ex2.lenText len with
+    | nil => rw [hlt] at hr; simp at hr; rw [← hr.1]; decide
+    | cons c' r' => rw [hlt] at hr; simp at hr; rw [← hr.1]; exact ⟨(hh c' r' hlt).2.2.2, (hh c' r' hlt).2.2.1⟩
+  unfold readRest
+  rcases hd with rfl | rfl
+  · simp only [restSign, show ¬ ((1:Int) = -1) by decide, if_false, List.nil_append]
+    cases hx : Ex2.lenText len ++ 32 :: R with
+    | nil => simp at hx
+    | cons c r =>
+      obtain ⟨h42, h45⟩ := hhead c r hx
+      have e1 : stripStar (c :: r) = c :: r := by
+        unfold stripStar; split
+        · rename_i heq; simp at heq; exact absurd heq.1 h42
+        · rfl
+      have e2 : stripMinus (c :: r) = (1, c :: r) := by
+        unfold stripMinus; split
+        · rename_i heq; simp at heq; exact absurd heq.1 h45
+        · rfl
+      simp only [e1, e2]
+      rw [← hx, hnl]
+      simp only []
+      rw [next_skipSpace R ln hR]
+  · simp only [restSign, if_true, List.cons_append, List.nil_append]
+    have e1 : stripStar (45 :: (Ex2.lenText len ++ 32 :: R)) = 45 :: (Ex2.lenText len ++ 32 :: R) := rfl
+    simp only [e1, stripMinus]
+    rw [hnl]
+    simp only []
+    rw [next_skipSpace R ln hR]
+
+
+/-- the default-length command: the length text must not start with `.` (that form goes through the reservation check) -/
+theorem readLength_print (len : Option Core.LenExpr) (R : List Nat) (ln : Int)
+    (hl : Ex2.lenOK len) (hdot : ∀ c r, Ex2.lenText len = c :: r → c ≠ 46) (hR : Next R) :
+    readLength ⟨Ex2.lenText len ++ 32 :: R, ln⟩ = some (tok .length 0 [.str (Ex2.lenText len)], ⟨R, ln⟩) := by
+  have hnl := noteLength_then_blank (Ex2.lenText len) (lenText_lenchars len hl) R ln (next_stop_or_nil hR)
+  unfold readLength
+  simp only []
+  split
+  · rename_i r heq
+    cases hlt : Ex2.lenText len with
+    | nil => rw [hlt] at heq; simp at heq
+    | cons c' r' => rw [hlt] at heq; simp at heq; exact absurd heq.1 (hdot c' r' hlt)
+  · rw [hnl]
+
+/-- `read_arg_value` on a printed integer -/
+theorem argValue_printInt (tb : Int) (x : Int) (R : List Nat) (ln : Int) (h : NumEnd R) :
+    (Cur.mk (printInt x ++ R) ln).argValue tb = (.int x, ⟨R, ln⟩) := by
+  obtain ⟨c, r, hp, hc⟩ := printInt_head x
+  have hnb : c ≠ 32 ∧ c ≠ 9 ∧ c ≠ 47 := by
+    rcases hc with rfl | hd
+    · decide
+    · have := digit_facts c hd; omega
+  have hup : ¬ (isUpper c = true ∨ c = 95) := by
+    rcases hc with rfl | hd
+    · decide
+    · have := digit_facts c hd; simp [isUpper]; omega
+  have h33 : c ≠ 33 := by
+    rcases hc with rfl | hd
+    · decide
+    · have := digit_facts c hd; omega
+  have hnum : c = 45 ∨ isDigit c = true ∨ c = 36 := by
+    rcases hc with rfl | hd
+    · exact Or.inl rfl
+    · exact Or.inr (Or.inl hd)
+  unfold Cur.argValue
+  simp only [hp, List.cons_append, List.length_cons]
+  rw [readArgValue]
+  rw [skipSpace_nonblank c _ ln hnb]
+  simp only [hup, h33, hnum, if_false, if_true]
+  rw [← List.cons_append, ← hp, getInt_printInt 0 x R h]
+
+theorem printInt_not_dot (x : Int) (R : List Nat) : ∀ r, printInt x ++ R ≠ 46 :: r := by
+  intro r h
+  obtain ⟨c, r', hp, hc⟩ := printInt_head x
+  rw [hp] at h; simp at h
+  rcases hc with rfl | hd
+  · exact absurd h.1 (by decide)
+  · have := digit_facts c hd; omega
+
+/-- the common tail of the octave / gate / velocity / timing readers on a printed integer -/
+theorem readDotOrValue_print (tb : Int) (rnd plain : TT) (data : List SV) (x : Int) (R : List Nat) (ln : Int) (h : NumEnd R) :
+    readDotOrValue tb rnd plain data ⟨printInt x ++ R, ln⟩ = some (tok plain x data, ⟨R, ln⟩) := by
+  unfold readDotOrValue
+  simp only []
+  split
+  · rename_i r heq; exact absurd heq (printInt_not_dot x R r)
+  · rw [argValue_printInt tb x R ln h]; rfl
+
+
+/-- the first two characters of a printed integer: a digit, or `-` followed by a digit -/
+theorem printInt_shape (x : Int) (R : List Nat) :
+    (∃ c r, printInt x ++ R = c :: r ∧ isDigit c = true) ∨ (∃ c r, printInt x ++ R = 45 :: c :: r ∧ isDigit c = true) := by
+  unfold printInt
+  split
+  · right
+    cases hd : decDigits x.natAbs with
+    | nil => exact absurd hd (decDigits_ne_nil _)
+    | cons d0 ds => exact ⟨d0, ds ++ R, by simp, decDigits_digit _ d0 (by rw [hd]; exact List.mem_cons_self)⟩
+  · left
+    cases hd : decDigits x.toNat with
+    | nil => exact absurd hd (decDigits_ne_nil _)
+    | cons d0 ds => exact ⟨d0, ds ++ R, by simp, decDigits_digit _ d0 (by rw [hd]; exact List.mem_cons_self)⟩
+
+theorem readOctave_print (tb : Int) (x : Int) (R : List Nat) (ln : Int) (h : NumEnd R) :
+    readOctave tb ⟨printInt x ++ R, ln⟩ = some (tok .octave x [], ⟨R, ln⟩) :=
+  readDotOrValue_print tb _ _ _ x R ln h
+
+theorem readQlen_print (tb : Int) (x : Int) (R : List Nat) (ln : Int) (h : NumEnd R) :
+    readQlen tb ⟨printInt x ++ R, ln⟩ = some (tok .qlen x [], ⟨R, ln⟩) := by
+  unfold readQlen
+  simp only []
+  rcases printInt_shape x R with ⟨c, r, hs, hd⟩ | ⟨c, r, hs, hd⟩
+  · have f := digit_facts c hd
+    rw [hs]
+    split
+    · rename_i heq; simp at heq; omega
+    · rename_i heq; simp at heq; omega
+    · rename_i heq; simp at heq; omega
+    · rename_i heq; simp at heq; omega
+    · rw [← hs]; exact readDotOrValue_print tb _ _ _ x R ln h
+  · have f := digit_facts c hd
+    rw [hs]
+    split
+    · rename_i heq; simp at heq
+    · rename_i heq; simp at heq; omega
+    · rename_i heq; simp at heq
+    · rename_i heq; simp at heq
+    · rw [← hs]; exact readDotOrValue_print tb _ _ _ x R ln h
+
+theorem readVelocity_print (tb : Int) (x : Int) (R : List Nat) (ln : Int) (h : NumEnd R) :
+    readVelocity tb ⟨printInt x ++ R, ln⟩ = some (tok .velocity x [.int (-1)], ⟨R, ln⟩) := by
+  unfold readVelocity
+  simp only []
+  rcases printInt_shape x R with ⟨c, r, hs, hd⟩ | ⟨c, r, hs, hd⟩
+  · have f := digit_facts c hd
+    rw [hs]
+    split
+    · rename_i heq; simp at heq; omega
+    · rename_i heq; simp at heq; omega
+    · rename_i heq; simp at heq; omega
+    · rename_i heq; simp at heq; omega
+    · rw [← hs]; exact readDotOrValue_print tb _ _ _ x R ln h
+  · have f := digit_facts c hd
+    rw [hs]
+    split
+    · rename_i heq; simp at heq
+    · rename_i heq; simp at heq; omega
+    · rename_i heq; simp at heq
+    · rename_i heq; simp at heq
+    · rw [← hs]; exact readDotOrValue_print tb _ _ _ x R ln h
+
+theorem readTiming_print (tb : Int) (x : Int) (R : List Nat) (ln : Int) (h : NumEnd R) :
+    readTiming tb ⟨printInt x ++ R, ln⟩ = some (tok .timing x [], ⟨R, ln⟩) := by
+  unfold readTiming
+  simp only []
+  rcases printInt_shape x R with ⟨c, r, hs, hd⟩ | ⟨c, r, hs, hd⟩
+  · have f := digit_facts c hd
+    rw [hs]
+    split
+    · rename_i heq; simp at heq; omega
+    · rename_i heq; simp at heq; omega
+    · rw [← hs]; exact readDotOrValue_print tb _ _ _ x R ln h
+  · rw [hs]
+    split
+    · rename_i heq; simp at heq
+    · rename_i heq; simp at heq
+    · rw [← hs]; exact readDotOrValue_print tb _ _ _ x R ln h
+
+theorem printInt_nat (n : Nat) : printInt (n : Int) = decDigits n := by
+  unfold printInt
+  have : ¬ ((n : Int) < 0) := by omega
+  simp [this]
+
+/-- the loop count after `[` -/
+theorem readLoop_print (tb : Int) (n : Nat) (R : List Nat) (ln : Int) (h : NumEnd R) :
+    readLoop tb ⟨decDigits n ++ R, ln⟩ = (tok .loopBegin 0 [.int n], ⟨R, ln⟩) := by
+  cases hd : decDigits n with
+  | nil => exact absurd hd (decDigits_ne_nil _)
+  | cons d0 ds =>
+    have h0 : isDigit d0 = true := decDigits_digit _ d0 (by rw [hd]; exact List.mem_cons_self)
+    have f := digit_facts d0 h0
+    unfold readLoop
+    simp only [List.cons_append]
+    rw [skipSpace_nonblank d0 _ ln (by omega)]
+    simp only [peek, List.headD_cons, h0, true_or, ne_eq, reduceCtorEq, not_false_eq_true, and_self, if_true]
+    rw [← List.cons_append, ← hd, ← printInt_nat, argValue_printInt tb n R ln h]
+
+
+/-! ## the main loop on one command character -/
+
+/-- put a token in front of the result of lexing the rest -/
+def pre (t : Tok) (r : Option Out) : Option Out := r.map (fun o => ⟨t :: o.toks, o.errs⟩)
+
+def preL (ts : List Tok) (r : Option Out) : Option Out := r.map (fun o => ⟨ts ++ o.toks, o.errs⟩)
+
+theorem preL_nil (r : Option Out) : preL [] r = r := by cases r <;> rfl
+theorem preL_cons (t : Tok) (ts : List Tok) (r : Option Out) : preL (t :: ts) r = pre t (preL ts r) := by cases r <;> rfl
+theorem preL_append (a b : List Tok) (r : Option Out) : preL (a ++ b) r = preL a (preL b r) := by
+  cases r <;> simp [preL]
+
+theorem zen_ascii (c : Nat) (h : 0x20 ≤ c ∧ c ≤ 0x7E) : Sut.zen2han c = c := by
+  unfold Sut.zen2han; simp [h]
+
+theorem lex_blank (tb : Int) (f : Nat) (cs : List Nat) (ln : Int) (harm : Bool) :
+    lexLoop tb (f + 1) (32 :: cs) ln harm = lexLoop tb f cs ln harm := by
+  rw [lexLoop]
+  simp [zen_ascii 32 (by decide)]
+
+theorem lex_noteLetter (tb : Int) (f : Nat) (ch : Nat) (hc : ch = 99 ∨ ch = 100 ∨ ch = 101 ∨ ch = 102 ∨ ch = 103 ∨ ch = 97 ∨ ch = 98)
+    (cs : List Nat) (ln : Int) (harm : Bool) :
+    lexLoop tb (f + 1) (ch :: cs) ln harm =
+      pre (readNote ch ⟨cs, ln⟩).1 (lexLoop tb f (readNote ch ⟨cs, ln⟩).2.s (readNote ch ⟨cs, ln⟩).2.line harm) := by
+  have hz : Sut.zen2han ch = ch := zen_ascii ch (by omega)
+  rw [lexLoop]
+  simp only [hz]
+  have h1 : ¬ (ch = 32 ∨ ch = 9 ∨ ch = 13 ∨ ch = 124 ∨ ch = 59) := by omega
+  have h2 : ¬ (ch = 10) := by omega
+  simp only [h1, h2, hc, if_false, if_true]
+  cases lexLoop tb f (readNote ch ⟨cs, ln⟩).2.s (readNote ch ⟨cs, ln⟩).2.line harm <;> rfl
+
+
+theorem lex_rest (tb : Int) (f : Nat) (cs : List Nat) (ln : Int) (harm : Bool) :
+    lexLoop tb (f + 1) (114 :: cs) ln harm =
+      pre (readRest ⟨cs, ln⟩).1 (lexLoop tb f (readRest ⟨cs, ln⟩).2.s (readRest ⟨cs, ln⟩).2.line harm) := by
+  rw [lexLoop]
+  simp only [zen_ascii 114 (by decide)]
+  simp (config := { decide := true }) only [if_false, if_true]
+  cases lexLoop tb f (readRest ⟨cs, ln⟩).2.s (readRest ⟨cs, ln⟩).2.line harm <;> rfl
+
+theorem lex_length (tb : Int) (f : Nat) (cs : List Nat) (ln : Int) (harm : Bool) (r : Tok × Cur) (hr : readLength ⟨cs, ln⟩ = some r) :
+    lexLoop tb (f + 1) (108 :: cs) ln harm = pre r.1 (lexLoop tb f r.2.s r.2.line harm) := by
+  rw [lexLoop]
+  simp only [zen_ascii 108 (by decide)]
+  simp (config := { decide := true }) only [if_false, if_true, hr]
+  cases lexLoop tb f r.2.s r.2.line harm <;> rfl
+
+theorem lex_octave (tb : Int) (f : Nat) (cs : List Nat) (ln : Int) (harm : Bool) (r : Tok × Cur) (hr : readOctave tb ⟨cs, ln⟩ = some r) :
+    lexLoop tb (f + 1) (111 :: cs) ln harm = pre r.1 (lexLoop tb f r.2.s r.2.line harm) := by
+  rw [lexLoop]
+  simp only [zen_ascii 111 (by decide)]
+  simp (config := { decide := true }) only [if_false, if_true, hr]
+  cases lexLoop tb f r.2.s r.2.line harm <;> rfl
+
+theorem lex_qlen (tb : Int) (f : Nat) (cs : List Nat) (ln : Int) (harm : Bool) (r : Tok × Cur) (hr : readQlen tb ⟨cs, ln⟩ = some r) :
+    lexLoop tb (f + 1) (113 :: cs) ln harm = pre r.1 (lexLoop tb f r.2.s r.2.line harm) := by
+  rw [lexLoop]
+  simp only [zen_ascii 113 (by decide)]
+  simp (config := { decide := true }) only [if_false, if_true, hr]
+  cases lexLoop tb f r.2.s r.2.line harm <;> rfl
+
+theorem lex_velocity (tb : Int) (f : Nat) (cs : List Nat) (ln : Int) (harm : Bool) (r : Tok × Cur) (hr : readVelocity tb ⟨cs, ln⟩ = some r) :
+    lexLoop tb (f + 1) (118 :: cs) ln harm = pre r.1 (lexLoop tb f r.2.s r.2.line harm) := by
+  rw [lexLoop]
+  simp only [zen_ascii 118 (by decide)]
+  simp (config := { decide := true }) only [if_false, if_true, hr]
+  cases lexLoop tb f r.2.s r.2.line harm <;> rfl
+
+theorem lex_timing (tb : Int) (f : Nat) (cs : List Nat) (ln : Int) (harm : Bool) (r : Tok × Cur) (hr : readTiming tb ⟨cs, ln⟩ = some r) :
+    lexLoop tb (f + 1) (116 :: cs) ln harm = pre r.1 (lexLoop tb f r.2.s r.2.line harm) := by
+  rw [lexLoop]
+  simp only [zen_ascii 116 (by decide)]
+  simp (config := { decide := true }) only [if_false, if_true, hr]
+  cases lexLoop tb f r.2.s r.2.line harm <;> rfl
+
+theorem lex_octUp (tb : Int) (f : Nat) (cs : List Nat) (ln : Int) (harm : Bool) :
+    lexLoop tb (f + 1) (62 :: cs) ln harm = pre (tok .octaveRel 1 []) (lexLoop tb f cs ln harm) := by
+  rw [lexLoop]
+  simp only [zen_ascii 62 (by decide)]
+  simp (config := { decide := true }) only [if_false, if_true]
+  cases lexLoop tb f cs ln harm <;> rfl
+
+theorem lex_octDown (tb : Int) (f : Nat) (cs : List Nat) (ln : Int) (harm : Bool) :
+    lexLoop tb (f + 1) (60 :: cs) ln harm = pre (tok .octaveRel (-1) []) (lexLoop tb f cs ln harm) := by
+  rw [lexLoop]
+  simp only [zen_ascii 60 (by decide)]
+  simp (config := { decide := true }) only [if_false, if_true]
+  cases lexLoop tb f cs ln harm <;> rfl
+
+theorem lex_velUp (tb : Int) (f : Nat) (cs : List Nat) (ln : Int) (harm : Bool) :
+    lexLoop tb (f + 1) (41 :: cs) ln harm = pre (tok .velocityRel 1 []) (lexLoop tb f cs ln harm) := by
+  rw [lexLoop]
+  simp only [zen_ascii 41 (by decide)]
+  simp (config := { decide := true }) only [if_false, if_true]
+  cases lexLoop tb f cs ln harm <;> rfl
+
+theorem lex_velDown (tb : Int) (f : Nat) (cs : List Nat) (ln : Int) (harm : Bool) :
+    lexLoop tb (f + 1) (40 :: cs) ln harm = pre (tok .velocityRel (-1) []) (lexLoop tb f cs ln harm) := by
+  rw [lexLoop]
+  simp only [zen_ascii 40 (by decide)]
+  simp (config := { decide := true }) only [if_false, if_true]
+  cases lexLoop tb f cs ln harm <;> rfl
+
+theorem lex_loopBegin (tb : Int) (f : Nat) (cs : List Nat) (ln : Int) (harm : Bool) :
+    lexLoop tb (f + 1) (91 :: cs) ln harm =
+      pre (readLoop tb ⟨cs, ln⟩).1 (lexLoop tb f (readLoop tb ⟨cs, ln⟩).2.s (readLoop tb ⟨cs, ln⟩).2.line harm) := by
+  rw [lexLoop]
+  simp only [zen_ascii 91 (by decide)]
+  simp (config := { decide := true }) only [if_false, if_true]
+  cases lexLoop tb f (readLoop tb ⟨cs, ln⟩).2.s (readLoop tb ⟨cs, ln⟩).2.line harm <;> rfl
+
+theorem lex_loopBreak (tb : Int) (f : Nat) (cs : List Nat) (ln : Int) (harm : Bool) :
+    lexLoop tb (f + 1) (58 :: cs) ln harm = pre (tok .loopBreak 0 []) (lexLoop tb f cs ln harm) := by
+  rw [lexLoop]
+  simp only [zen_ascii 58 (by decide)]
+  simp (config := { decide := true }) only [if_false, if_true]
+  cases lexLoop tb f cs ln harm <;> rfl
+
+theorem lex_loopEnd (tb : Int) (f : Nat) (cs : List Nat) (ln : Int) (harm : Bool) :
+    lexLoop tb (f + 1) (93 :: cs) ln harm = pre (tok .loopEnd 0 []) (lexLoop tb f cs ln harm) := by
+  rw [lexLoop]
+  simp only [zen_ascii 93 (by decide)]
+  simp (config := { decide := true }) only [if_false, if_true]
+  cases lexLoop tb f cs ln harm <;> rfl
+
+
+/-! ## the canonical printer and the program theorem -/
+open Sakura.Core (Cmd)
+
+def letterOf (semi : Int) : Nat :=
+  if semi = 0 then 99 else if semi = 2 then 100 else if semi = 4 then 101 else if semi = 5 then 102
+  else if semi = 7 then 103 else if semi = 9 then 97 else 98
+
+mutual
+/-- the text of a command followed by the text `R` (one blank closes every command) -/
+def printK : Cmd → List Nat → List Nat
+  | .note semi acc nat len q v t o, R => letterOf semi :: (accText acc nat ++ (Ex2.lenText len ++ slots q v t o R))
+  | .rest len dir, R => 114 :: (restSign dir ++ (Ex2.lenText len ++ 32 :: R))
+  | .setL len, R => 108 :: (Ex2.lenText len ++ 32 :: R)
+  | .setO n, R => 111 :: (printInt n ++ 32 :: R)
+  | .octRel d, R => (if d = 1 then 62 else 60) :: 32 :: R
+  | .setV n, R => 118 :: (printInt n ++ 32 :: R)
+  | .velRel d, R => (if d = 1 then 41 else 40) :: 32 :: R
+  | .setQ n, R => 113 :: (printInt n ++ 32 :: R)
+  | .setT n, R => 116 :: (printInt n ++ 32 :: R)
+  | .loop n b hb k, R =>
+    91 :: (decDigits n ++ 32 :: printKL b (if hb then 58 :: 32 :: printKL k (93 :: 32 :: R) else 93 :: 32 :: R))
+  | _, R => R
+def printKL : List Cmd → List Nat → List Nat
+  | [], R => R
+  | c :: cs, R => printK c (printKL cs R)
+end
+
+-- the fragment the printer covers, with the side conditions of the readers
+mutual
+def pwf : Cmd → Prop
+  | .note semi _ _ len _ _ _ _ => (semi = 0 ∨ semi = 2 ∨ semi = 4 ∨ semi = 5 ∨ semi = 7 ∨ semi = 9 ∨ semi = 11) ∧ Ex2.lenOK len ∧ LenHeadOK len
+  | .rest len dir => (dir = 1 ∨ dir = -1) ∧ Ex2.lenOK len ∧ LenHeadOK len
+  | .setL len => Ex2.lenOK len ∧ (∀ c r, Ex2.lenText len = c :: r → c ≠ 46)
+  | .setO _ | .setV _ | .setQ _ | .setT _ => True
+  | .octRel d => d = 1 ∨ d = -1
+  | .velRel d => d = 1 ∨ d = -1
+  | .loop _ b hb k => pwfL b ∧ pwfL k ∧ (hb = true ∨ k = [])
+  | _ => False
+def pwfL : List Cmd → Prop
+  | [] => True
+  | c :: cs => pwf c ∧ pwfL cs
+end
+
+-- iterations of the main loop a printed command uses
+mutual
+def cost : Cmd → Nat
+  | .note _ _ _ _ _ _ _ o => if o.isSome then 2 else 1
+  | .rest .. => 1
+  | .setL _ => 1
+  | .loop _ b hb k => 2 + costL b + (if hb then 2 + costL k else 0) + 2
+  | _ => 2
+def costL : List Cmd → Nat
+  | [] => 0
+  | c :: cs => cost c + costL cs
+end
+
+
+theorem start_of (c : Nat) (h : c = 99 ∨ c = 100 ∨ c = 101 ∨ c = 102 ∨ c = 103 ∨ c = 97 ∨ c = 98 ∨ c = 114 ∨ c = 108 ∨ c = 111 ∨ c = 118 ∨
+    c = 113 ∨ c = 116 ∨ c = 62 ∨ c = 60 ∨ c = 41 ∨ c = 40 ∨ c = 91 ∨ c = 58 ∨ c = 93) : Start c := by
+  unfold Start
+  rcases h with h | h | h | h | h | h | h | h | h | h | h | h | h | h | h | h | h | h | h | h <;> (subst h; decide)
+
+theorem letterOf_cases (semi : Int) : letterOf semi = 99 ∨ letterOf semi = 100 ∨ letterOf semi = 101 ∨ letterOf semi = 102 ∨
+    letterOf semi = 103 ∨ letterOf semi = 97 ∨ letterOf semi = 98 := by
+  unfold letterOf
+  split; · simp
+  split; · simp
+  split; · simp
+  split; · simp
+  split; · simp
+  split <;> simp
+
+theorem semiOf_letterOf (semi : Int) (h : semi = 0 ∨ semi = 2 ∨ semi = 4 ∨ semi = 5 ∨ semi = 7 ∨ semi = 9 ∨ semi = 11) :
+    semiOf (letterOf semi) = semi := by
+  rcases h with h | h | h | h | h | h | h <;> (subst h; decide)
+
+mutual
+theorem printK_next (c : Cmd) (hw : pwf c) (R : List Nat) (hR : Next R) : Next (printK c R) := by
+  cases c
+  case note semi acc nat len q v t o =>
+    refine Or.inr ⟨letterOf semi, _, rfl, start_of _ ?_⟩
+    rcases letterOf_cases semi with h | h | h | h | h | h | h <;> simp [h]
+  case rest len dir => exact Or.inr ⟨114, _, rfl, start_of _ (by simp)⟩
+  case setL len => exact Or.inr ⟨108, _, rfl, start_of _ (by simp)⟩
+  case setO n => exact Or.inr ⟨111, _, rfl, start_of _ (by simp)⟩
+  case octRel d =>
+    simp only [printK]
+    split
+    · exact Or.inr ⟨62, _, rfl, start_of _ (by simp)⟩
+    · exact Or.inr ⟨60, _, rfl, start_of _ (by simp)⟩
+  case setV n => exact Or.inr ⟨118, _, rfl, start_of _ (by simp)⟩
+  case velRel d =>
+    simp only [printK]
+    split
+    · exact Or.inr ⟨41, _, rfl, start_of _ (by simp)⟩
+    · exact Or.inr ⟨40, _, rfl, start_of _ (by simp)⟩
+  case setQ n => exact Or.inr ⟨113, _, rfl, start_of _ (by simp)⟩
+  case setT n => exact Or.inr ⟨116, _, rfl, start_of _ (by simp)⟩
+  case loop n b hb k => exact Or.inr ⟨91, _, rfl, start_of _ (by simp)⟩
+  all_goals exact absurd hw (by simp [pwf])
+theorem printKL_next (cs : List Cmd) (hw : pwfL cs) (R : List Nat) (hR : Next R) : Next (printKL cs R) := by
+  cases cs with
+  | nil => exact hR
+  | cons c cs =>
+    simp only [pwfL] at hw
+    exact printK_next c hw.1 _ (printKL_next cs hw.2 R hR)
+end
+
+
+theorem rawL_leaf (a : Tok) : Ex2.rawL [Loop.Tree.leaf a] = [a] := by simp [Ex2.rawL, Ex2.rawT]
+
+theorem next_blank_cons (R : List Nat) : Next R → NumEnd (32 :: R) := fun _ => numEnd_blank R
+
+theorem rawL_append (a b : List (Loop.Tree Tok)) : Ex2.rawL (a ++ b) = Ex2.rawL a ++ Ex2.rawL b := by
+  induction a with
+  | nil => simp [Ex2.rawL]
+  | cons t ts ih => simp [Ex2.rawL, ih]
+
+theorem next_loopEnd (R : List Nat) : Next (93 :: 32 :: R) := Or.inr ⟨93, _, rfl, start_of _ (by simp)⟩
+theorem next_loopBreak (R : List Nat) : Next (58 :: 32 :: R) := Or.inr ⟨58, _, rfl, start_of _ (by simp)⟩
+
+/-- `] ` : two iterations -/
+theorem loopEnd_step (tb : Int) (f : Nat) (R : List Nat) (ln : Int) (harm : Bool) :
+    lexLoop tb (f + 1 + 1) (93 :: 32 :: R) ln harm = pre (tok .loopEnd 0 []) (lexLoop tb f R ln harm) := by
+  rw [lex_loopEnd, lex_blank]
+
+/-- `: ` : two iterations -/
+theorem loopBreak_step (tb : Int) (f : Nat) (R : List Nat) (ln : Int) (harm : Bool) :
+    lexLoop tb (f + 1 + 1) (58 :: 32 :: R) ln harm = pre (tok .loopBreak 0 []) (lexLoop tb f R ln harm) := by
+  rw [lex_loopBreak, lex_blank]
+
+/-- a value setter `<letter><int><blank>`: two iterations -/
+theorem setter_step (tb : Int) (f : Nat) (R : List Nat) (ln : Int) (harm : Bool) (t : Tok) (text : List Nat)
+    (h : lexLoop tb (f + 1 + 1) text ln harm = pre t (lexLoop tb (f + 1) (32 :: R) ln harm)) :
+    lexLoop tb (2 + f) text ln harm = preL [t] (lexLoop tb f R ln harm) := by
+  have : 2 + f = f + 1 + 1 := by omega
+  rw [this, h, lex_blank, preL_cons, preL_nil]
+
+mutual
+theorem lex_printK (tb : Int) (c : Cmd) (hw : pwf c) : ∀ (f : Nat) (R : List Nat) (ln : Int) (harm : Bool), Next R →
+    lexLoop tb (cost c + f) (printK c R) ln harm = preL (Ex2.rawL (Ex2.toTrees c)) (lexLoop tb f R ln harm) := by
+  intro f R ln harm hR
+  cases c
+  case note semi acc nat len q v t o =>
+    simp only [pwf] at hw
+    obtain ⟨hs, hl, hh⟩ := hw
+    simp only [printK, cost, Ex2.toTrees, rawL_leaf]
+    cases o with
+    | none =>
+      simp only [Option.isSome, Bool.false_eq_true, if_false]
+      rw [show 1 + f = f + 1 by omega, lex_noteLetter tb f _ (letterOf_cases semi), readNote_print _ acc nat len q v t none R ln hl hh hR]
+      simp only [afterNote, semiOf_letterOf semi hs, preL_cons, preL_nil]
+    | some x =>
+      simp only [Option.isSome, if_true]
+      rw [show 2 + f = (f + 1) + 1 by omega, lex_noteLetter tb (f + 1) _ (letterOf_cases semi),
+        readNote_print _ acc nat len q v t (some x) R ln hl hh hR]
+      simp only [afterNote, semiOf_letterOf semi hs, preL_cons, preL_nil, lex_blank]
+  case rest len dir =>
+    simp only [pwf] at hw
+    obtain ⟨hd, hl, hh⟩ := hw
+    simp only [printK, cost, Ex2.toTrees, rawL_leaf]
+    rw [show 1 + f = f + 1 by omega, lex_rest, readRest_print dir hd len R ln hl hh hR]
+    simp only [preL_cons, preL_nil]
+  case setL len =>
+    simp only [pwf] at hw
+    simp only [printK, cost, Ex2.toTrees, rawL_leaf]
+    rw [show 1 + f = f + 1 by omega, lex_length tb f _ ln harm _ (readLength_print len R ln hw.1 hw.2 hR)]
+    simp only [preL_cons, preL_nil]
+  case setO n =>
+    simp only [printK, cost, Ex2.toTrees, rawL_leaf]
+    exact setter_step tb f R ln harm _ _ (lex_octave tb (f + 1) _ ln harm _ (readOctave_print tb n (32 :: R) ln (numEnd_blank R)))
+  case setV n =>
+    simp only [printK, cost, Ex2.toTrees, rawL_leaf]
+    exact setter_step tb f R ln harm _ _ (lex_velocity tb (f + 1) _ ln harm _ (readVelocity_print tb n (32 :: R) ln (numEnd_blank R)))
+  case setQ n =>
+    simp only [printK, cost, Ex2.toTrees, rawL_leaf]
+    exact setter_step tb f R ln harm _ _ (lex_qlen tb (f + 1) _ ln harm _ (readQlen_print tb n (32 :: R) ln (numEnd_blank R)))
+  case setT n =>
+    simp only [printK, cost, Ex2.toTrees, rawL_leaf]
+    exact setter_step tb f R ln harm _ _ (lex_timing tb (f + 1) _ ln harm _ (readTiming_print tb n (32 :: R) ln (numEnd_blank R)))
+  case octRel d =>
+    simp only [pwf] at hw
+    simp only [printK, cost, Ex2.toTrees, rawL_leaf]
+    rcases hw with rfl | rfl
+    · simp only [if_true]
+      exact setter_step tb f R ln harm _ _ (lex_octUp tb (f + 1) _ ln harm)
+    · simp only [show ¬ ((-1 : Int) = 1) by decide, if_false]
+      exact setter_step tb f R ln harm _ _ (lex_octDown tb (f + 1) _ ln harm)
+  case velRel d =>
+    simp only [pwf] at hw
+    simp only [printK, cost, Ex2.toTrees, rawL_leaf]
+    rcases hw with rfl | rfl
+    · simp only [if_true]
+      exact setter_step tb f R ln harm _ _ (lex_velUp tb (f + 1) _ ln harm)
+    · simp only [show ¬ ((-1 : Int) = 1) by decide, if_false]
+      exact setter_step tb f R ln harm _ _ (lex_velDown tb (f + 1) _ ln harm)
+  case loop n b hb k =>
+    simp only [pwf] at hw
+    obtain ⟨hwb, hwk, hbk⟩ := hw
+    simp only [printK, cost, Ex2.toTrees]
+    have hraw : Ex2.rawL [Loop.Tree.loop n (Ex2.toTreesL b) hb (Ex2.toTreesL k)] =
+        tok .loopBegin 0 [.int n] :: (Ex2.rawL (Ex2.toTreesL b) ++ ((if hb then [tok .loopBreak 0 []] ++ Ex2.rawL (Ex2.toTreesL k) else []) ++ [tok .loopEnd 0 []])) := by
+      simp [Ex2.rawL, Ex2.rawT]
+    rw [hraw]
+    cases hb with
+    | true =>
+      simp only [if_true]
+      have hY : Next (93 :: 32 :: R) := next_loopEnd R
+      have hX : Next (58 :: 32 :: printKL k (93 :: 32 :: R)) := next_loopBreak _
+      rw [show 2 + costL b + (2 + costL k) + 2 + f = (costL b + ((costL k + (f + 1 + 1)) + 1 + 1)) + 1 + 1 by omega,
+        lex_loopBegin, readLoop_print tb n _ ln (numEnd_blank _)]
+      simp only []
+      rw [lex_blank, lex_printKL tb b hwb _ _ ln harm hX, loopBreak_step, lex_printKL tb k hwk _ _ ln harm hY, loopEnd_step]
+      simp only [preL_cons, preL_append, preL_nil, List.cons_append, List.nil_append]
+    | false =>
+      have hk : k = [] := by
+        rcases hbk with h | h
+        · cases h
+        · exact h
+      subst hk
+      simp only [Bool.false_eq_true, if_false, List.nil_append]
+      have hY : Next (93 :: 32 :: R) := next_loopEnd R
+      rw [show 2 + costL b + 0 + 2 + f = (costL b + (f + 1 + 1)) + 1 + 1 by omega,
+        lex_loopBegin, readLoop_print tb n _ ln (numEnd_blank _)]
+      simp only []
+      rw [lex_blank, lex_printKL tb b hwb _ _ ln harm hY, loopEnd_step]
+      simp only [preL_cons, preL_append, preL_nil, List.cons_append, List.nil_append]
+  all_goals exact absurd hw (by simp [pwf])
+theorem lex_printKL (tb : Int) (cs : List Cmd) (hw : pwfL cs) : ∀ (f : Nat) (R : List Nat) (ln : Int) (harm : Bool), Next R →
+    lexLoop tb (costL cs + f) (printKL cs R) ln harm = preL (Ex2.rawL (Ex2.toTreesL cs)) (lexLoop tb f R ln harm) := by
+  intro f R ln harm hR
+  cases cs with
+  | nil => simp [costL, printKL, Ex2.toTreesL, Ex2.rawL, preL_nil]
+  | cons c cs =>
+    simp only [pwfL] at hw
+    simp only [costL, printKL, Ex2.toTreesL]
+    rw [show cost c + costL cs + f = cost c + (costL cs + f) by omega,
+      lex_printK tb c hw.1 (costL cs + f) _ ln harm (printKL_next cs hw.2 R hR), lex_printKL tb cs hw.2 f R ln harm hR,
+      rawL_append, preL_append]
+end
+
+
+theorem slots_length (q v t o : Option Int) (R : List Nat) : 5 + R.length ≤ (slots q v t o R).length := by
+  simp only [slots, List.length_cons, List.length_append]; omega
+
+mutual
+theorem cost_le (c : Cmd) (hw : pwf c) (R : List Nat) : cost c + R.length ≤ (printK c R).length := by
+  cases c
+  case note semi acc nat len q v t o =>
+    have := slots_length q v t o R
+    simp only [printK, cost, List.length_cons, List.length_append]
+    split <;> omega
+  case rest len dir => simp only [printK, cost, List.length_cons, List.length_append]; omega
+  case setL len => simp only [printK, cost, List.length_cons, List.length_append]; omega
+  case setO n => simp only [printK, cost, List.length_cons, List.length_append]; omega
+  case setV n => simp only [printK, cost, List.length_cons, List.length_append]; omega
+  case setQ n => simp only [printK, cost, List.length_cons, List.length_append]; omega
+  case setT n => simp only [printK, cost, List.length_cons, List.length_append]; omega
+  case octRel d => simp only [printK, cost, List.length_cons]; omega
+  case velRel d => simp only [printK, cost, List.length_cons]; omega
+  case loop n b hb k =>
+    simp only [pwf] at hw
+    obtain ⟨hwb, hwk, _⟩ := hw
+    simp only [printK, cost, List.length_cons, List.length_append]
+    cases hb with
+    | true =>
+      have h1 := costL_le k hwk (93 :: 32 :: R)
+      have h2 := costL_le b hwb (58 :: 32 :: printKL k (93 :: 32 :: R))
+      simp only [List.length_cons, if_true] at h1 h2 ⊢
+      omega
+    | false =>
+      have h2 := costL_le b hwb (93 :: 32 :: R)
+      simp only [List.length_cons, Bool.false_eq_true, if_false] at h2 ⊢
+      omega
+  all_goals exact absurd hw (by simp [pwf])
+theorem costL_le (cs : List Cmd) (hw : pwfL cs) (R : List Nat) : costL cs + R.length ≤ (printKL cs R).length := by
+  cases cs with
+  | nil => simp [costL, printKL]
+  | cons c cs =>
+    simp only [pwfL] at hw
+    have h1 := costL_le cs hw.2 R
+    have h2 := cost_le c hw.1 (printKL cs R)
+    simp only [costL, printKL]
+    omega
+end
+
+/-- **print → lex**: the model lexer reads the canonical text of a program back as exactly the compiled token list (the one
+    `exec_refines_sem` is about), with no error — for every program of the fragment (notes with all parameters, rests, `l o v q t`,
+    `< > ( )`, loops with `:` nested to any depth). -/
+theorem lex_print (cs : List Cmd) (hw : pwfL cs) : Lx.lex 96 (printKL cs []) 0 = some ⟨Ex2.compileL cs, []⟩ := by
+  have hle := costL_le cs hw []
+  simp only [List.length_nil, Nat.add_zero] at hle
+  unfold Lx.lex
+  obtain ⟨f, hf⟩ : ∃ f, (printKL cs []).length + 1 = costL cs + (f + 1) := ⟨(printKL cs []).length - costL cs, by omega⟩
+  rw [hf, lex_printKL 96 cs hw (f + 1) [] 0 false (Or.inl rfl)]
+  simp [lexLoop, preL, Ex2.compileL, Ex2.lineTok]
+
+#print axioms lex_print
 end Sakura.Lp
